@@ -156,7 +156,9 @@ def _gen_world(r, tier):
             "uuid_layout": uuid_layout, "extremes": r.random() < 0.3,
             # file-name patterns: a space, an extra dot, upper case in the stem; the caller may work with relative paths from inside the folder
             "stem": r.choice([None] * 6 + ["my rec_g0_t0.imec0", "rec.v2_g0_t0.imec0", "REC-01_g0_t0.imec0"]),
-            "relative_paths": r.random() < 0.15}
+            "relative_paths": r.random() < 0.15,
+            # annex / object-store layout: the data file is a symbolic link into a store, its .meta a regular file beside the link
+            "symlink_store": r.random() < 0.12}
 
 
 def _gen_knobs(r):
@@ -302,6 +304,14 @@ class World:
             sd.compress_file(keep_original=True, chunk_duration=0.05, n_threads=1)
             sd.close()
         self.bin = self.root / f"{self.stem}.ap{self.U}.bin"
+        self.store_files = set()
+        if w.get("symlink_store"):
+            store = self.root / "store" / "a1"
+            store.mkdir(parents=True)
+            obj = store / "SHA256E-s0--9f2c41.bin"
+            self.bin.rename(obj)
+            os.symlink(os.path.relpath(obj, self.root), self.bin)
+            self.store_files.add(obj)
         self.cbin = self.root / f"{self.stem}.ap{self.U}.cbin"
         self.ch = self.root / f"{self.stem}.ap{self.U}.ch"
         self.meta = self.root / f"{self.stem}.ap{self.U}.meta"
@@ -331,7 +341,7 @@ class World:
         (self.oracle / f"{STEM}.ap.bin").write_bytes(self.Obytes)
         # scratch copies of the old content belong to the old recording: the operator clears them
         for p in list(self.root.rglob("*.bin")):
-            if p != self.bin and p not in self.decoys:
+            if p != self.bin and p not in self.decoys and p not in self.store_files:
                 p.unlink()
                 if p.with_suffix(".meta").exists():
                     p.with_suffix(".meta").unlink()
@@ -354,7 +364,7 @@ class World:
             o["cbin"] = "complete" if cbin_is(self.cbin, self.O, self.ch) else "other"
         o["scratch"] = {}
         for p in sorted(self.root.rglob("*.bin")):
-            if p != self.bin and p not in self.decoys:
+            if p != self.bin and p not in self.decoys and p not in self.store_files:
                 o["scratch"][os.path.relpath(p, self.root)] = st_bin(p)
         o["decoys_ok"] = all(p.exists() and sha1_file(p) == h for p, h in self.decoys.items())
         o["tmp"] = sorted(os.path.relpath(p, self.root) for p in self.root.rglob("*") if p.name.endswith(("_tmp", "_temp")))
@@ -508,6 +518,8 @@ def _exec_step(W, st, model, log, stats, bump, seed, progress=False):
         raise Violation("C02.R", f"{sig0}:sibling-touched", "files of the sibling recording (same stem, no UUID) were changed or removed | " + ctx)
     if W.U:
         bump("probes", "uuid_named_files_with_sibling_recording")
+    if W.store_files:
+        bump("probes", "data_file_is_a_symlink_into_a_store")
     if not W.meta.exists():
         raise Violation("C02.A2", f"{sig0}:meta-removed", "the recording's metadata file was removed | " + ctx)
     if sha1_file(W.meta) != W.meta_sha:
@@ -729,7 +741,7 @@ def _read_checks(W, model, rsel, log, stats, bump):
         ref.close()
     # remove scratch outputs (the oracle consumed them); leftovers *_temp stay as debris by design
     for p in list(W.root.rglob("*.bin")):
-        if p != W.bin and p not in W.decoys and rsel.random() < 0.7:
+        if p != W.bin and p not in W.decoys and p not in W.store_files and rsel.random() < 0.7:
             p.unlink()
             m = p.with_suffix(".meta")
             if m.exists():
